@@ -10,6 +10,7 @@ package scn
 import (
 	"context"
 	"fmt"
+	"os"
 
 	"github.com/aperturerobotics/util/zzverif/vsched"
 )
@@ -17,8 +18,19 @@ import (
 // T starts a named harness thread.
 func T(name string, f func()) *vsched.Thread { return vsched.GoNamed(name, f) }
 
+// curProp is the property being checked (set by the master for its workers). A scenario listed
+// under several properties carries the oracles of all of them; an oracle of another property does
+// not end the execution (it would hide the oracles of this property that come later), it is skipped.
+var curProp = os.Getenv("VERIF_PROP")
+
 func fail(oracle, format string, a ...any) {
 	if vsched.Aborting() {
+		return
+	}
+	if curProp == "C13" {
+		return // the race build judges ThreadSanitizer reports only; keep exploring
+	}
+	if curProp != "" && len(oracle) > 4 && oracle[0] == 'C' && oracle[3] == '.' && oracle[:3] != curProp {
 		return
 	}
 	vsched.Fail(oracle, fmt.Sprintf(format, a...))
